@@ -365,7 +365,146 @@ int main() {
                 eval.backward(storage, grad, mut_qrk, mut_q_N, D, D_N, μ, y);
                 std::cout << vp::f2h(V) << " s " << vp::fmtv(storage) << " g " << vp::fmtv(grad)
                           << " qr " << vp::fmtv(qr) << '\n';
-            } else if (op == "ric" || op == "ricx") {
+            } else if (op == "fbs") {
+                // A SEQUENCE of calls on ONE OCPEvaluator, one qr vector and one set of boxes, as
+                // panoc-ocp.tpp owns them for the whole solve; K storages (one per input sequence)
+                // with one gradient vector each (the solver's Iterates).  Calls:
+                //   F i   forward(storage_i)            S i   forward_simulate(storage_i)
+                //   B i   backward(storage_i)           C i j storage_j = storage_i  (take_safe_step)
+                // Nothing is reset between calls.
+                t.tok(); // regime tag, for the monitor only
+                Prob p  = read_prob(t);
+                vec μ   = t.vec();
+                vec y   = t.vec();
+                p.xinit = t.vec();
+                long K  = t.nat();
+                std::vector<vec> us(K);
+                for (auto &u : us)
+                    u = t.vec();
+                TEOCP te{&p};
+                Eval eval{te};
+                auto &vars = eval.vars;
+                Box D = Box::NaN(p.nc), D_N = Box::NaN(p.nc_N);
+                if (p.nc > 0)
+                    te.get_D(D);
+                if (p.nc_N > 0)
+                    te.get_D_N(D_N);
+                std::vector<vec> sto(K), grads(K);
+                for (long k = 0; k < K; ++k) {
+                    sto[k] = vars.create();
+                    sto[k].setZero();
+                    te.get_x_init(sto[k].topRows(p.nx));
+                    alpaqa::detail::assign_interleave_xu(vars, us[k], sto[k]);
+                    grads[k] = vec::Zero(p.N * p.nu);
+                }
+                vec qr = vars.create_qr();
+                qr.setZero();
+                auto mut_qrk = [&](index_t k) -> rvec { return vars.qrk(qr, k); };
+                auto mut_q_N = [&]() -> rvec { return vars.qk(qr, p.N); };
+                long L = t.nat();
+                std::ostringstream o;
+                for (long c = 0; c < L; ++c) {
+                    std::string kind = t.tok();
+                    long i = t.nat();
+                    if (i < 0 || i >= K)
+                        throw std::out_of_range("storage index");
+                    if (c)
+                        o << " | ";
+                    if (kind == "F") {
+                        real_t V = eval.forward(sto[i], D, D_N, μ, y);
+                        o << "F " << vp::f2h(V) << " s " << vp::fmtv(sto[i]);
+                    } else if (kind == "S") {
+                        eval.forward_simulate(sto[i]);
+                        o << "S s " << vp::fmtv(sto[i]);
+                    } else if (kind == "B") {
+                        eval.backward(sto[i], grads[i], mut_qrk, mut_q_N, D, D_N, μ, y);
+                        o << "B g " << vp::fmtv(grads[i]) << " qr " << vp::fmtv(qr);
+                    } else if (kind == "C") {
+                        long j = t.nat();
+                        if (j < 0 || j >= K)
+                            throw std::out_of_range("storage index");
+                        sto[j] = sto[i];
+                        o << "C s " << vp::fmtv(sto[j]);
+                    } else {
+                        throw std::invalid_argument("call kind");
+                    }
+                }
+                std::cout << o.str() << '\n';
+            } else if (op == "ric" || op == "ricx" || op == "rics") {
+                // rics : M cases of the same dimensions run on ONE StatefulLQRFactor object, one
+                //        IndexSet, one work_2x and one q vector (as panoc-ocp.tpp keeps them across
+                //        Gauss-Newton steps); nothing is reset between cases.
+                if (op == "rics") {
+                    long M = t.nat();
+                    long N = t.nat(), nx = t.nat(), nu = t.nat();
+                    Vars vars{{nx, nu, 0, 0}, {nx, 0, 0}, N};
+                    mat jacs = vars.create_AB();
+                    vec qr   = vars.create_qr();
+                    vec q(N * nu);
+                    std::vector<mat> Q(N + 1), R(N), S(N);
+                    std::vector<unsigned long> masks(N);
+                    ISet J{N, nu};
+                    alpaqa::StatefulLQRFactor<config_t> lqr{{.N = N, .nx = nx, .nu = nu}};
+                    vec work_2x(nx * 2);
+                    auto rd = [&](long r, long c) {
+                        vec v = t.vec();
+                        mat m(r, c);
+                        for (long i = 0; i < r; ++i)
+                            for (long j = 0; j < c; ++j)
+                                m(i, j) = v(i * c + j);
+                        return m;
+                    };
+                    auto ABk = [&](index_t i) -> crmat { return vars.ABk(jacs, i); };
+                    auto Qk  = [&](index_t k) { return [&, k](rmat out) { out += Q[k]; }; };
+                    auto Rk  = [&](index_t k) {
+                        return [&, k](crindexvec m, rmat out) { out += R[k](m, m); };
+                    };
+                    auto Sk = [&](index_t k) {
+                        return [&, k](crindexvec m, rmat out) { out += S[k](m, all); };
+                    };
+                    auto Rprod = [&](index_t k) {
+                        return [&, k](crindexvec mJ, crindexvec mK, crvec v, rvec out) {
+                            out += R[k](mJ, mK) * v(mK);
+                        };
+                    };
+                    auto Sprod = [&](index_t k) {
+                        return [&, k](crindexvec mK, crvec v, rvec out) {
+                            out += S[k](mK, all).transpose() * v(mK);
+                        };
+                    };
+                    auto qk    = [&](index_t k) -> crvec { return vars.qk(qr, k); };
+                    auto rk    = [&](index_t k) -> crvec { return vars.rk(qr, k); };
+                    auto uk_eq = [&](index_t k) -> crvec { return q.segment(k * nu, nu); };
+                    auto Jk    = [&](index_t k) -> crindexvec { return J.indices(k); };
+                    auto Kk    = [&](index_t k) -> crindexvec { return J.compl_indices(k); };
+                    std::ostringstream o;
+                    for (long c = 0; c < M; ++c) {
+                        bool chol = t.nat() != 0;
+                        for (long k = 0; k < N; ++k) {
+                            vars.Ak(jacs, k) = rd(nx, nx);
+                            vars.Bk(jacs, k) = rd(nx, nu);
+                            Q[k] = rd(nx, nx);
+                            R[k] = rd(nu, nu);
+                            S[k] = rd(nu, nx);
+                            vars.qk(qr, k) = t.vec();
+                            vars.rk(qr, k) = t.vec();
+                            q.segment(k * nu, nu) = t.vec();
+                            masks[k] = (unsigned long)t.nat();
+                        }
+                        Q[N] = rd(nx, nx);
+                        vars.qk(qr, N) = t.vec();
+                        J.update([&](index_t k, index_t cc) { return bool((masks[k] >> cc) & 1ul); });
+                        lqr.factor_masked(ABk, Qk, Rk, Sk, Rprod, Sprod, qk, rk, uk_eq, Jk, Kk, chol);
+                        lqr.solve_masked(ABk, Jk, q, work_2x);
+                        vec dxN = work_2x.segment((N % 2) * nx, nx);
+                        if (c)
+                            o << " | ";
+                        o << "du " << vp::fmtv(q) << " dxN " << vp::fmtv(dxN) << " rcond "
+                          << vp::f2h(lqr.min_rcond);
+                    }
+                    std::cout << o.str() << '\n';
+                    continue;
+                }
                 // ric  : StatefulLQRFactor driven by explicit per-stage matrices
                 bool chol = t.nat() != 0;
                 long N = t.nat(), nx = t.nat(), nu = t.nat();
